@@ -58,4 +58,9 @@ CHECKS.update({
                 note='parse_cpulist reached through hook H5.'),
 })
 
+E4 = 'loom (harness-loom, real memory.rs under cfg qe_verif_loom)'
+CHECKS['C33'] = dict(category='model_checking', engine=E4, design='3/C33',
+    technique='loom: exhaustive (preemption-bounded) interleaving exploration of the real MemoryPool, linearizability oracle by brute force',
+    text='41 two- and three-thread bodies of try_allocate/allocate/resize/drop on the real pool with loom atomics; every interleaving within preemption bound 2 (quick) / 3 and unbounded for two threads (thorough); each execution must be explainable by a sequential order and account exactly.',
+    note='Only src/execution/memory.rs is compiled under loom (via #[path]); memory-ordering effects are those loom models.')
 PENDING_REASON = 'check not built yet in this round (planned in DESIGN.md section 3); not claimed until it exists'
